@@ -295,7 +295,12 @@ fn case_moves(t: &mut Tape, info: &mut CaseInfo) -> Result<(), String> {
     for _ in 0..n_calcs {
         let spec = gen_map(t, &MapProfile::small(ALL_MODES, 25));
         let target = pick_target(t, spec.mode);
-        let dspec = gen_diff(t, &DiffProfile::realistic(), target);
+        let mut dspec = gen_diff(t, &DiffProfile::realistic(), target);
+        // a third of the calculators gets a Difficulty that already carries passed_objects
+        if t.chance(1, 3) {
+            dspec.passed = Some(t.range(0, spec.objects.len() as i64 + 1) as u32);
+            info.label("preset-passed_objects");
+        }
         let text = spec.render();
         let d = dspec.build(target);
         map_labels(&spec, info);
